@@ -285,14 +285,33 @@ func handleFailure(rep *lib.Report, b *batch, d *fnDump, line string) {
 	fmt.Fprintf(&sb, "\nsource:\n%s\n\nSSA:\n", b.srcs[rootName(d.fn)])
 	d.fn.WriteTo(&sb)
 	fmt.Fprintf(&sb, "\noracle record:\n%s", d.text)
-	rule := strings.Fields(first)
-	rn := "?"
-	if len(rule) > 0 {
-		rn = rule[0]
+	// concrete search: wrap the offending construct between a source and a sink
+	for _, ff := range rest {
+		tk := templateFor(d, ff)
+		if tk == "" {
+			continue
+		}
+		sr := runSearch(tk)
+		rep.Count("search:" + tk)
+		if sr.nativeDep && !sr.reported {
+			if reportedWraps[tk] {
+				rep.Count("wrap-again:" + tk)
+				return
+			}
+			reportedWraps[tk] = true
+			content := fmt.Sprintf("// criterion failure: %s\n// in %s\n// native: the value at the sink changes with the source value; real taint analysis: flow NOT reported\n%s\n/*\n%s*/\n",
+				ff.raw, d.fn.String(), sr.program, sb.String())
+			rep.Fail("wrap:"+tk, fmt.Sprintf("the summary of a function with construct %q loses a real flow: native run shows the sink value depends on the source, the taint analysis reports nothing (criterion: %s in %s)", tk, ff.raw, d.fn.String()),
+				[]byte(content), false)
+			return
+		}
+		fmt.Fprintf(&sb, "\nsearch %s: native-dependence=%v reported-by-taint=%v %s\n", tk, sr.nativeDep, sr.reported, sr.note)
 	}
-	rep.Fail(fmt.Sprintf("closed:%s:%s:%s", b.name, d.fn.String(), rn),
+	rep.Fail(fmt.Sprintf("closed:%s:%s:%s", b.name, d.fn.String(), rest[0].rule),
 		fmt.Sprintf("Intra.closed is false on the real result for %s (%s): %s", d.fn.String(), b.name, first), []byte(sb.String()), true)
 }
+
+var reportedWraps = map[string]bool{}
 
 func fields(s string) map[string]string {
 	m := map[string]string{}
